@@ -70,6 +70,11 @@ def generate(ctx):
     nmix = ctx.scale(150, 1500)
     for i in range(nmix):
         yield {"k": "mix", "via": VIAS[i % len(VIAS)], "s": subseed("c01", ctx.seed, "mix", ctx.shard, i)}
+    # identifier-coincident types interleaved in one stream; frames above 1 MiB through every access path
+    for i in range(ctx.scale(16, 120)):
+        yield {"k": "coincident", "via": VIAS[i % len(VIAS)], "s": subseed("c01", ctx.seed, "co", ctx.shard, i)}
+    if ctx.shard < len(VIAS):
+        yield {"k": "bigframe", "via": VIAS[ctx.shard], "s": subseed("c01", ctx.seed, "big", ctx.shard)}
     # unrelated configuration must not leak into the stream: comparison ignore-lists active while writing / reading
     for i in range(ctx.scale(24, 200)):
         yield {"k": "cfg", "via": VIAS[i % len(VIAS)], "ignore": [["_generated"], ["_source", "_version"], ["<first>"], ["<all>"]][i % 4],
@@ -113,6 +118,25 @@ def roundtrip(ctx, records, via):
             pass
 
 
+def big_frame_records(seed):
+    """A few records whose frames exceed 1 MiB (highly compressible and incompressible payloads) between small ones."""
+    import random
+
+    from flow.record import RecordDescriptor
+
+    rng = random.Random(seed)
+    D = RecordDescriptor("big/frame", [("varint", "idx"), ("string", "text"), ("bytes", "blob")])
+    out = []
+    for i in range(6):
+        if i in (1, 3, 4):
+            text = "x" * (1_200_000 + i) if i != 4 else ""
+            blob = b"" if i != 4 else rng.randbytes(1_100_000)
+        else:
+            text, blob = "small%d" % i, bytes([i])
+        out.append(D(idx=i, text=text, blob=blob))
+    return out
+
+
 def compare(ctx, before, after, what):
     """Compare lists of observations; classify every value difference.  -> number of unclassified differences."""
     if len(before) != len(after):
@@ -137,9 +161,21 @@ def execute(ctx, case):
     thorough = not ctx.quick
     focus = (case["t"], case["vc"]) if case["k"] == "cell" else None
     small = case["k"] == "cell" and case["vc"] == "extreme"
-    records = workload.build_sequence(case["s"], thorough=thorough, focus=focus, small=small,
-                                      n_records=(2 if small else None))
+    if case["k"] == "coincident":
+        records = workload.coincident_sequence(case["s"])
+    elif case["k"] == "bigframe":
+        records = big_frame_records(case["s"])
+    else:
+        records = workload.build_sequence(case["s"], thorough=thorough, focus=focus, small=small,
+                                          n_records=(2 if small else None))
+    specs = workload.last_specs() if case["k"] != "bigframe" else []
     ctx.ev()
+    # every record carries the descriptor it was created with (name and field list taken from the descriptor object the
+    # generator used, not through the record)
+    for r, spec in zip(records, specs):
+        if spec is not None and observe.desc_obs(r._desc) != spec:
+            ctx.violation(None, "a record does not carry the descriptor it was created with", detail={"created_with": spec, "record_reports": observe.desc_obs(r._desc)})
+            return
     before = [observe.obs(r) for r in records]
     for r in records:
         observe.assert_typed(r, "written")
